@@ -45,7 +45,7 @@ class C18(CtxCheck):
         return out
 
     def _units0(self, tier: str, seed: int) -> list:
-        return super().units(tier, seed) + [{"reuse": True}] + [{"stalled": q, "order": o} for q in (1, 2) for o in ("stalled-first", "stalled-last")] + [{"equal_contexts": True}]
+        return super().units(tier, seed) + [{"reuse": True}] + [{"stalled": q, "order": o} for q in (1, 2) for o in ("stalled-first", "stalled-last")] + [{"equal_contexts": True}, {"multi_context": True}]
 
     def _work0(self, unit: dict, tier: str) -> dict:
         if unit.get("reuse"):
@@ -54,7 +54,71 @@ class C18(CtxCheck):
             return self.stalled_unit(unit)
         if unit.get("equal_contexts"):
             return self.equal_contexts_unit()
+        if unit.get("multi_context"):
+            return self.multi_context_unit()
         return super().work(unit, tier)
+
+    def multi_context_unit(self) -> dict:
+        """ONE listener attached to the resource_added signals of several contexts through a single stream_events / wait_event call:
+        every publication on each of them is announced to it once, with the right source."""
+        import anyio
+
+        from ..explore import new_summary
+
+        fails: list = []
+
+        async def main() -> None:
+            from asphalt.core import Context, stream_events, wait_event
+
+            class R:
+                pass
+
+            got: list = []
+            first: list = []
+            async with Context() as root, Context() as child, Context() as grand:
+                ctxs = [("root", root), ("child", child), ("grand", grand)]
+                started = anyio.Event()
+
+                async def listen() -> None:
+                    async with stream_events([c.resource_added for _n, c in ctxs]) as stream:
+                        started.set()
+                        async for ev in stream:
+                            got.append((next(n for n, c in ctxs if c is ev.source), ev.resource_name, ev.is_factory))
+
+                async def wait_first() -> None:
+                    ev = await wait_event([c.resource_added for _n, c in ctxs])
+                    first.append(ev.resource_name)
+
+                async with anyio.create_task_group() as tg:
+                    tg.start_soon(listen)
+                    tg.start_soon(wait_first)
+                    await started.wait()
+                    await anyio.wait_all_tasks_blocked()
+                    root.add_resource(R(), "r1")
+                    child.add_resource_factory(lambda: R(), "f1", types=R)
+                    grand.add_resource(R(), "g1")
+                    child.get_resource_nowait(R, "f1")
+                    root.add_resource(R(), "r2")
+                    await anyio.wait_all_tasks_blocked()
+                    tg.cancel_scope.cancel()
+            want = [("root", "r1", False), ("child", "f1", True), ("grand", "g1", False), ("child", "f1", False), ("root", "r2", False)]
+            if got != want:
+                fails.append(("events", f"one listener over root / child / grandchild received {got}, expected {want}"))
+            if first != ["r1"]:
+                fails.append(("events", f"wait_event over the three contexts returned {first}, the first publication was 'r1' on the root"))
+
+        try:
+            anyio.run(main)
+        except BaseException as e:  # noqa: BLE001
+            fails.append(("events", f"scenario raised {e!r}"))
+        s = new_summary()
+        s["evaluations"] = s["transitions"] = s["states"] = s["distinct"] = s["nontrivial"] = 1
+        s["outcomes"] = {"done": 1}
+        if fails:
+            s["violations"].append({"keys": ["events"], "fails": [list(f) for f in fails], "program": {"multi_context": True}, "choices": [], "trace": [],
+                                    "outcome": "done"})
+            s["keyhist"] = {"events": 1}
+        return s
 
     def equal_contexts_unit(self) -> dict:
         """A Context subclass with value equality: an outer and a nested context that compare equal are still two contexts, and
@@ -193,8 +257,9 @@ class C18(CtxCheck):
         return summary_for("context", "C18")
 
     def _replay0(self, rec: dict):  # type: ignore[no-untyped-def]
-        if "stalled" in rec.get("program", {}) or rec.get("program", {}).get("equal_contexts"):
-            s = self.stalled_unit(rec["program"]) if "stalled" in rec["program"] else self.equal_contexts_unit()
+        if "stalled" in rec.get("program", {}) or rec.get("program", {}).get("equal_contexts") or rec.get("program", {}).get("multi_context"):
+            s = (self.stalled_unit(rec["program"]) if "stalled" in rec["program"] else self.multi_context_unit() if rec["program"].get("multi_context")
+                 else self.equal_contexts_unit())
             for v in s["violations"]:
                 for f in v["fails"]:
                     print("FAIL", f[0], "-", f[1])
